@@ -178,6 +178,11 @@ fn inner(name: &str, a: &[String]) -> String {
                 _ => Epoch::from_qzsst_nanoseconds(n),
             })
         }
+        "is_gregorian_valid" => format!("{}", crate::is_gregorian_valid(p(&a[0]), p(&a[1]), p(&a[2]), p(&a[3]), p(&a[4]), p(&a[5]), p(&a[6]))),
+        "maybe_from_gregorian" => match Epoch::maybe_from_gregorian(p(&a[0]), p(&a[1]), p(&a[2]), p(&a[3]), p(&a[4]), p(&a[5]), p(&a[6]), scale(&a[7])) {
+            Ok(x) => format!("Ok {}", e(x)),
+            Err(_) => "Err".to_string(),
+        },
         "epoch_floor" => e(Epoch::from_duration(dur(a, 0), scale(&a[2])).floor(dur(a, 3))),
         "epoch_ceil" => e(Epoch::from_duration(dur(a, 0), scale(&a[2])).ceil(dur(a, 3))),
         "epoch_round" => e(Epoch::from_duration(dur(a, 0), scale(&a[2])).round(dur(a, 3))),
